@@ -571,6 +571,28 @@ pub fn exec_case(case: &Value, want: &BTreeSet<String>) -> RunOutcome {
         } else {
             ro.violations.push(viol("C16", "C16.no_optimiser_stage", "the transition optimisation stage was never reached".into()));
         }
+        // (e') the vehicle view of the JSON lists, per vehicle, exactly the activities and depots of the
+        //      final schedule (and with that of the local-search result) - read from the JSON, not
+        //      through the serialiser
+        if let Some(fin) = fin_sd {
+            for v in &fin.vehicles {
+                match sd.vehicle(&v.id) {
+                    None => ro.violations.push(viol("C16", "C16.json_vehicle_missing", format!("vehicle {} of the final schedule is not in the returned fleet", v.id))),
+                    Some(j) => {
+                        if j.acts != v.acts || j.start != v.start || j.end != v.end || j.vtype != v.vtype {
+                            ro.violations.push(viol(
+                                "C16",
+                                "C16.json_itinerary_differs_from_final_schedule",
+                                format!("vehicle {}: the JSON lists activities {:?} ({:?} -> {:?}) but the final schedule has {:?} ({:?} -> {:?})", v.id, j.acts.iter().map(|a| inst.acts[*a].id.clone()).collect::<Vec<_>>(), j.start, j.end, v.acts.iter().map(|a| inst.acts[*a].id.clone()).collect::<Vec<_>>(), v.start, v.end),
+                            ));
+                        }
+                    }
+                }
+            }
+            if sd.vehicles.len() != fin.vehicles.len() {
+                ro.violations.push(viol("C16", "C16.json_vehicle_count", format!("the JSON lists {} vehicles, the final schedule has {}", sd.vehicles.len(), fin.vehicles.len())));
+            }
+        }
         // (e) the JSON is the serialisation of the final schedule
         if rec.json_matches_final == Some(false) {
             ro.violations.push(viol("C16", "C16.json_not_final_schedule", "returned JSON is not schedule_to_json(final schedule)".into()));
